@@ -162,6 +162,7 @@ type tableOpts struct {
 	maxRows    int
 	headerMode int // 0 random, 1 always full distinct non-empty, 2 never
 	sizeItems  bool
+	sizeEvery  int      // one cell in this many is a size-declaring item (default 4)
 	plainItems bool     // strings only
 	postAdd    bool     // allow Row.Add after attach, AddRow of pre-built rows, zero rows
 	midRender  []string // wrapper kinds created right after the table and rendered between building steps
@@ -169,7 +170,11 @@ type tableOpts struct {
 
 func (g *Gen) cellItem(o tableOpts) string {
 	r := g.r
-	if o.sizeItems && r.chance(1, 4) {
+	every := 4
+	if o.sizeEvery > 0 {
+		every = o.sizeEvery
+	}
+	if o.sizeItems && r.chance(1, every) {
 		mask := r.n(32) | []int{8, 16, 24}[r.n(3)]
 		h := []int{0, 1, 2, 3, 5, -1, 8}[r.n(7)]
 		w := []int{0, 1, 2, 3, 7, 12, -2, 40}[r.n(8)]
